@@ -483,6 +483,13 @@ func main() {
 			S = int64(r.Intn(int(25000/B)))*B + 1 // below the codec switch height 30024 (amino-stored records)
 		}
 		total := int64(1 + r.Intn(40))
+		// every 9th case: a relay count at a power-of-two boundary (2^k-1, 2^k, 2^k+1 for k = 8..10) — the
+		// selection is hash mod total for EVERY total, and the index must stay below total.  Chosen
+		// from the line counter (no PRNG draw: the streams of older seeds are unchanged).
+		if t.Lines%9 == 4 {
+			k := uint(8 + (t.Lines/9)%3)
+			total = int64(1)<<k + int64((t.Lines/27)%3) - 1
+		}
 		P := S + W*B
 		// governance may change the two parameters between session start, claim and proof
 		ps := prm{B, W}
